@@ -61,6 +61,8 @@ def describe_iter(eng, st, v):
             n = min(len(p.items) for p in parts)
             return IterDesc("concrete", items=[STuple([p.items[i] for p in parts]) for i in range(n)])
         return IterDesc("zip", parts=parts, raw=v.parts, strict=v.strict)
+    if isinstance(v, (sym.SOpaque, SAny)):
+        v = models.ghost_iterator(eng, st, v)
     if isinstance(v, SIter):
         return IterDesc("iter", it=v)
     if isinstance(v, models.SConstMapLike) if hasattr(models, "SConstMapLike") else False:
